@@ -174,7 +174,7 @@ pub fn run(world: &World, ctx: &mut Ctx) -> Option<Value> {
     }
     // leaves
     let mut cands: Vec<char> = vec![];
-    for r in [0x2f..0x3b, 0x40..0x48, 0x5a..0x68, 0x79..0x81, 0xbf..0xc2, 0xd6..0xd9, 0xde..0xe1, 0xf6..0xf9, 0x1c4..0x1c7, 0x2af..0x2b2, 0x36f..0x374, 0x3a8..0x3ac, 0x2e7f..0x2e82, 0x3005..0x3008, 0x33ff..0x3402, 0x4dbe..0x4dc1, 0x4dff..0x4e02, 0x9ffe..0xa001, 0xf8ff..0xf902, 0x1f5ff..0x1f602, 0x1fffe..0x20002, 0x2a6de..0x2a6e1] {
+    for r in [0x2f..0x3b, 0x40..0x48, 0x5a..0x68, 0x79..0x81, 0xbf..0xc2, 0xd6..0xd9, 0xde..0xe1, 0xf6..0xf9, 0x1c4..0x1c7, 0x2af..0x2b2, 0x36f..0x374, 0x3a8..0x3ac, 0x3af..0x3b3, 0x3c7..0x3cc, 0x2e7f..0x2e82, 0x3005..0x3008, 0x33ff..0x3402, 0x4dbe..0x4dc1, 0x4dff..0x4e02, 0x9ffe..0xa001, 0xf8ff..0xf902, 0x1f5ff..0x1f602, 0x1fffe..0x20002, 0x2a6de..0x2a6e1] {
         for c in r {
             if let Some(ch) = char::from_u32(c) {
                 cands.push(ch);
@@ -198,6 +198,12 @@ pub fn run(world: &World, ctx: &mut Ctx) -> Option<Value> {
         None
     };
     if let Some(v) = leaf("lf_range", &|c| ('b'..='f').contains(&c), &|c| format!("CharRange {{ content: {:?} }}", c), ctx) {
+        return Some(v);
+    }
+    if let Some(v) = leaf("lf_greek", &|c| ('α'..='ω').contains(&c), &|c| format!("CharRange {{ content: {:?} }}", c), ctx) {
+        return Some(v);
+    }
+    if let Some(v) = leaf("lf_cjk", &|c| ('一'..='龥').contains(&c), &|c| format!("CharRange {{ content: {:?} }}", c), ctx) {
         return Some(v);
     }
     if let Some(v) = leaf("lf_any", &|_| true, &|c| format!("ANY {{ content: {:?} }}", c), ctx) {
